@@ -284,8 +284,6 @@ func (viso *VirtualISO) scanDirectory() error {
 }
 
 func (viso *VirtualISO) makeDirEntries(item *dirItem, joliet bool) error {
-	var totalSizeBytes sizeBytes
-
 	// '.' entry
 	dotEntry := directoryEntry{
 		FileFlags:            dirFlagDir,
@@ -321,8 +319,6 @@ func (viso *VirtualISO) makeDirEntries(item *dirItem, joliet bool) error {
 	} else {
 		item.dirEntry = append(item.dirEntry, dotEntry, dotDotEntry)
 	}
-
-	totalSizeBytes += dotEntry.size() + dotDotEntry.size()
 
 	// file entries
 	for _, fileItem := range item.files {
@@ -365,8 +361,6 @@ func (viso *VirtualISO) makeDirEntries(item *dirItem, joliet bool) error {
 			} else {
 				item.dirEntry = append(item.dirEntry, entry)
 			}
-
-			totalSizeBytes += entry.size()
 		}
 	}
 
@@ -396,18 +390,13 @@ func (viso *VirtualISO) makeDirEntries(item *dirItem, joliet bool) error {
 		} else {
 			item.dirEntry = append(item.dirEntry, entry)
 		}
-
-		totalSizeBytes += entry.size()
 	}
 
-	// total size must be integer number of sectors so ceil it if needed
-	totalSizeBytes = totalSizeBytes.sectors().bytes()
-
-	// set correct size to first entry
+	// set correct size (integer number of sectors) to first entry
 	if joliet {
-		item.dirEntryJoliet[0].ExtentLength = totalSizeBytes
+		item.dirEntryJoliet[0].ExtentLength = dirEntriesSize(item.dirEntryJoliet)
 	} else {
-		item.dirEntry[0].ExtentLength = totalSizeBytes
+		item.dirEntry[0].ExtentLength = dirEntriesSize(item.dirEntry)
 	}
 
 	if parent == nil {
@@ -627,6 +616,11 @@ func (viso *VirtualISO) writeFSStructures(gameCode string) error {
 	// iso directories
 	for _, item := range viso.rootDir {
 		for _, dirEntry := range item.dirEntry {
+			// record must not cross sector boundary
+			if viso.fsBuf.size()%sectorSize+dirEntry.size() > sectorSize {
+				viso.fsBuf.padLastSector()
+			}
+
 			dirEntry.encode(&viso.fsBuf)
 		}
 
@@ -636,6 +630,11 @@ func (viso *VirtualISO) writeFSStructures(gameCode string) error {
 	// joliet directories
 	for _, item := range viso.rootDir {
 		for _, dirEntry := range item.dirEntryJoliet {
+			// record must not cross sector boundary
+			if viso.fsBuf.size()%sectorSize+dirEntry.size() > sectorSize {
+				viso.fsBuf.padLastSector()
+			}
+
 			dirEntry.encode(&viso.fsBuf)
 		}
 
